@@ -6,4 +6,5 @@ type t = {
   nontrivial : bool;
   cls : string;          (* distribution class of the case *)
   model : Sexp.t;        (* the model's observable *)
+  why : string;          (* free text (no spaces) explaining an oracle failure, "" otherwise *)
 }
